@@ -50,7 +50,8 @@ Section Spec.
   (* ---- conformance of an action in the world it is performed in (editor discipline) ---- *)
   Fixpoint fnodup (l : list file) : bool :=
     match l with [] => true | x :: r => negb (fmem x r) && fnodup r end.
-  Definition conf_action (w : world A) (a : action A) : bool :=
+  (* general form: watched batches over distinct files *)
+  Definition conf_action_full (w : world A) (a : action A) : bool :=
     match a with
     | ARaw _ => false
     (* saving a buffer whose file is gone re-creates the file: a client's watcher then also reports the creation,
@@ -61,6 +62,9 @@ Section Spec.
       forallb (fun i => match i with WM f _ => ahas (disk w) f | _ => true end) l
     | _ => true
     end.
+  (* the fragment the guarded theorem is proved for: one file per watched notification *)
+  Definition conf_action (w : world A) (a : action A) : bool :=
+    conf_action_full w a && match a with AWatched (_ :: _ :: _) => false | _ => true end.
 
   Definition action_files (a : action A) : list file :=
     match a with
@@ -139,17 +143,22 @@ Section Spec.
     (if k_empty_shortcut w a then [7] else []).
 
   (* fold over the history: (all actions conformant, classes met so far) *)
-  Fixpoint scan_history (w : world A) (h : list (action A)) : bool * list N :=
+  Fixpoint scan_history (cf : world A -> action A -> bool) (w : world A) (h : list (action A)) : bool * list N :=
     match h with
     | [] => (true, [])
     | a :: h' =>
       let w' := fst (act A fx w a) in
-      let '(c, ks) := scan_history w' h' in
-      (conf_action w a && c, classes_step w a w' ++ ks)
+      let '(c, ks) := scan_history cf w' h' in
+      (cf w a && c, classes_step w a w' ++ ks)
     end.
 
-  Definition conformant (dk : amap txt) (h : list (action A)) : bool := fst (scan_history (fst (init_world A fx dk)) h).
-  Definition classes (dk : amap txt) (h : list (action A)) : list N := snd (scan_history (fst (init_world A fx dk)) h).
+  Definition conformant (dk : amap txt) (h : list (action A)) : bool :=
+    fst (scan_history conf_action (fst (init_world A fx dk)) h).
+  Definition conformant_full (dk : amap txt) (h : list (action A)) : bool :=
+    fst (scan_history conf_action_full (fst (init_world A fx dk)) h).
+  Definition classes (dk : amap txt) (h : list (action A)) : list N :=
+    snd (scan_history conf_action (fst (init_world A fx dk)) h).
   Definition guard (dk : amap txt) (h : list (action A)) : bool := conformant dk h && is_nil (classes dk h).
+  Definition guard_full (dk : amap txt) (h : list (action A)) : bool := conformant_full dk h && is_nil (classes dk h).
 
 End Spec.
